@@ -43,3 +43,16 @@ func EvalArgInt(stages []expressions.KeyBuilderStage, idx int, dflt int) (int, b
 	}
 	return dflt, true
 }
+
+// A float64 has at most 1074 digits after the decimal point: a larger precision only appends zeros
+const maxFloatPrecision = 1100
+
+// Like EvalArgInt, for the number of decimals handed to strconv.FormatFloat
+// A huge precision is clamped (FormatFloat would append zeros until memory runs out)
+func EvalArgPrecision(stages []expressions.KeyBuilderStage, idx int, dflt int) (int, bool) {
+	precision, ok := EvalArgInt(stages, idx, dflt)
+	if precision > maxFloatPrecision {
+		precision = maxFloatPrecision
+	}
+	return precision, ok
+}
